@@ -759,13 +759,8 @@ Contract(
 # =================================================================================================
 from contracts.c_simulator import queue_not_in_past  # noqa: E402
 
-Contract(
-    "workers.workers.WorkerPools.get_placed_tasks",
-    params={"self": T.Ref(WPS)},
-    ret=TaskList,
-    trusted=True,
-    allocates=True,
-    ensures=lambda c: z3.And(
+def CONTRACTS_get_placed_tasks_text(c):
+    return z3.And(
         c.res >= c.alloc0,
         z3.ForAll([z3.Int("gp_x")], z3.Implies(c.post.l_mem(TaskList, c.res, z3.Int("gp_x")), z3.And(z3.Int("gp_x") > 0, z3.Int("gp_x") < c.alloc0, wf_task(c.pre, z3.Int("gp_x")))), patterns=[c.post.l_mem(TaskList, c.res, z3.Int("gp_x"))]),
         z3.ForAll(
@@ -776,7 +771,16 @@ Contract(
             ),
             patterns=[c.post.l_elem(TaskList, c.res, z3.Int("gp_j"))],
         ),
-    ),
+    )
+
+
+Contract(
+    "workers.workers.WorkerPools.get_placed_tasks",
+    params={"self": T.Ref(WPS)},
+    ret=TaskList,
+    trusted=True,
+    allocates=True,
+    ensures=CONTRACTS_get_placed_tasks_text,
     note="WorkerPools.get_placed_tasks: the tasks resident on the cluster (a fresh list); every such task satisfies the Task representation invariant (which every Task mutator is proved to preserve)",
     props=("C03", "C05"),
 )
